@@ -174,10 +174,10 @@ CHECKS = {
         design_ref="DESIGN.md §4 C15",
     ),
     "C16": dict(
-        technique="Lean 4 proof over an explicit object-state machine (answers do not read the state) + history correspondence against fresh objects",
+        technique="Lean 4 proof: memo-table refinement of the image object (memoised levels unobservable when every action installs the same routines - a table regenerated from actions.py; rewound stream cursors) + history correspondence against fresh objects",
         text=(
             "Machine-checked: C16_pure — with the object state made explicit (memoised levels, data-stream cursors) and the operations ls p / export, the answer to any operation after any history equals the answer from any other state, in particular a fresh object. In the model no answer reads the state (the transcoder rewinds first: fix 9bb4eeb); "
-            "that the CODE has no such dependency is what the tie checks: random histories of 2-8 operations (ls at valid/invalid/too-deep paths, export, repeated export) on one opened image vs a fresh object per operation, AKAI and CDDA, image SHA-256 before/after, and the Lean model's answers. Found and repaired: D10."
+            "The state that DOES persist is modelled in Props/C16M: a memo table of realised levels (`children` = look up, else realise under the routines installed now, and memoise) and a cursor per data stream. C16_memo / C16_actions: if every operation of a history installs the same routines, each answer is what a fresh object gives, whatever was listed or exported before; routines_same is the tie obligation - the routine tables of ls_action and export_samples_to_wav are recorded from /repo on every run (Gen/Routines) and must coincide (a Lean example shows the answers DO become history-dependent when they differ); C16_rewind_read / C16_second_export: a rewound stream reads its whole content wherever the cursor was left (the D10 repair), with the un-rewound counterexample. That the CODE has no further dependency is what the tie checks: random histories of 2-8 operations (ls at valid/invalid/too-deep paths, export, repeated export) on one opened image vs a fresh object per operation, AKAI and CDDA, image SHA-256 before/after, and the Lean model's answers. Found and repaired: D10."
         ),
         design_ref="DESIGN.md §4 C16",
     ),
